@@ -451,6 +451,46 @@ Proof.
   eapply cw_unchanged_both; [exact E|lia].
 Qed.
 
+Lemma js_unchanged fuel : forall s o, js_loop fuel s = (o, false) -> (length s < fuel)%nat -> o = s.
+Proof.
+  induction fuel as [|f IH]; intros s o H L; [lia|].
+  cbn [js_loop] in H. destruct s as [|c r]; [inversion H; reflexivity|].
+  destruct r as [|c1 r1]; [inversion H; reflexivity|].
+  destruct (c =? 92).
+  - destruct (js_step c1 r1); discriminate.
+  - destruct (js_loop f (c1 :: r1)) as [o' ch] eqn:E. inversion H; subst. f_equal.
+    eapply IH; [exact E|cbn in *; lia].
+Qed.
+
+Lemma fs_js_decode : flag_sound t_js_decode.
+Proof.
+  intros s _ Hne. unfold t_js_decode in *. destruct (has_backslash s); [|cbn [t_out t_changed t_err ok_res] in *; congruence].
+  destruct (js_loop (S (length s)) s) as [o ch] eqn:E.
+  cbn [t_out t_changed t_err ok_res] in *. destruct ch; [reflexivity|]. exfalso; apply Hne. eapply js_unchanged; [exact E|lia].
+Qed.
+
+Lemma fs_css_decode : flag_sound t_css_decode.
+Proof.
+  intros s _ Hne. unfold t_css_decode in *. destruct (has_backslash s); cbn [t_out t_changed t_err ok_res] in *; congruence.
+Qed.
+
+Lemma rc_unchanged fuel : forall s o, rc_loop fuel s false = (o, false) -> (length s < fuel)%nat -> o = s.
+Proof.
+  induction fuel as [|f IH]; intros s o H L; [lia|].
+  cbn [rc_loop] in H. destruct s as [|c r]; [inversion H; reflexivity|].
+  destruct (is_prefix [47; 42] (c :: r)); [discriminate|].
+  destruct (is_prefix [60; 33; 45; 45] (c :: r)); [discriminate|].
+  destruct (is_prefix [45; 45] (c :: r)); [discriminate|].
+  destruct (c =? 35); [discriminate|].
+  destruct (rc_loop f r false) as [o' ch] eqn:E. inversion H; subst. f_equal. eapply IH; [exact E|cbn in L; lia].
+Qed.
+
+Lemma fs_remove_comments : flag_sound t_remove_comments.
+Proof.
+  intros s _ Hne. unfold t_remove_comments in *. destruct (rc_loop (S (length s)) s false) as [o ch] eqn:E.
+  cbn [t_out t_changed t_err ok_res] in *. destruct ch; [reflexivity|]. exfalso; apply Hne. eapply rc_unchanged; [exact E|lia].
+Qed.
+
 Theorem all_flags_sound_holds : all_flags_sound.
 Proof.
   intro t; destruct t; cbn [apply_t].
@@ -460,7 +500,7 @@ Proof.
   - exact fs_base64_decode. - exact fs_base64_decode_ext. - exact fs_url_decode. - exact fs_url_encode.
   - exact fs_cmd_line. - exact fs_remove_comments_char. - exact fs_replace_comments.
   - exact fs_escape_seq_decode. - exact fs_compress_whitespace. - exact fs_remove_whitespace.
-  - exact fs_utf8_to_unicode.
+  - exact fs_utf8_to_unicode. - exact fs_js_decode. - exact fs_css_decode. - exact fs_remove_comments.
 Qed.
 
 Theorem multimatch_sees_all_holds ts s v :
@@ -481,3 +521,95 @@ Theorem t_lowercase_spec s : t_out (t_lowercase s) = map ascii_lower s.
 Proof. reflexivity. Qed.
 Theorem t_uppercase_spec s : t_out (t_uppercase s) = map ascii_upper s.
 Proof. reflexivity. Qed.
+
+(* ------------------------------------------------------------------ *)
+(* base64Decode (base64Encode s) = s                                    *)
+(* ------------------------------------------------------------------ *)
+(* what one alphabet character does to the decoder state *)
+Definition b64_good (c : N) (k : N) : Prop :=
+  forall ext r n x,
+    b64_loop ext (c :: r) n x =
+      (if n =? 3 then
+         let '(o, n2, x2) := b64_loop ext r 0 0 in
+         (((x * 64 + k) / 65536) mod 256 :: ((x * 64 + k) / 256) mod 256 :: (x * 64 + k) mod 256 :: o, n2, x2)
+       else b64_loop ext r (n + 1) (x * 64 + k)).
+
+Lemma b64_char_good k : k < 64 -> b64_good (b64_char k) k.
+Proof.
+  intro H.
+  assert (Hc : forallb (fun k =>
+      let c := b64_char k in
+      negb (is_space_latin1 c || (c =? 46)) && negb ((c =? 13) || (c =? 10)) && negb ((c =? 61) || (c =? 32))
+      && negb (c =? 45) && negb (c =? 95) && (c <=? 127) && negb (b64_dec c =? 127) && (b64_dec c mod 64 =? k))
+      (map N.of_nat (seq 0 64)) = true) by (vm_compute; reflexivity).
+  rewrite forallb_forall in Hc. specialize (Hc k).
+  assert (Hin : In k (map N.of_nat (seq 0 64))).
+  { apply in_map_iff. exists (N.to_nat k). split; [lia|]. apply in_seq. lia. }
+  specialize (Hc Hin). cbv zeta in Hc.
+  apply andb_true_iff in Hc as [Hc H8]. apply andb_true_iff in Hc as [Hc H7]. apply andb_true_iff in Hc as [Hc H6].
+  apply andb_true_iff in Hc as [Hc H5]. apply andb_true_iff in Hc as [Hc H4]. apply andb_true_iff in Hc as [Hc H3].
+  apply andb_true_iff in Hc as [H1 H2].
+  apply negb_true_iff in H1, H2, H3, H4, H5, H7. apply N.eqb_eq in H8.
+  intros ext r n x. cbn [b64_loop].
+  rewrite H1, andb_false_r, H2, H3.
+  assert (E : (if ext then (if b64_char k =? 45 then 43 else if b64_char k =? 95 then 47 else b64_char k) else b64_char k) = b64_char k)
+    by (rewrite H4, H5; destruct ext; reflexivity).
+  rewrite E, H6, H7, H8. reflexivity.
+Qed.
+
+Lemma b64_idx_lt a b c : a < 256 -> b < 256 -> c < 256 ->
+  a / 4 < 64 /\ (a mod 4) * 16 + b / 16 < 64 /\ (b mod 16) * 4 + c / 64 < 64 /\ c mod 64 < 64
+  /\ (a mod 4) * 16 < 64 /\ (b mod 16) * 4 < 64.
+Proof. intros; repeat split; lia. Qed.
+
+Lemma b64_loop_triple a b c r : a < 256 -> b < 256 -> c < 256 ->
+  b64_loop false (base64_encode_b (a :: b :: c :: r)) 0 0 =
+  let '(o, n, x) := b64_loop false (base64_encode_b r) 0 0 in (a :: b :: c :: o, n, x).
+Proof.
+  intros Ha Hb Hc. destruct (b64_idx_lt a b c Ha Hb Hc) as (I1 & I2 & I3 & I4 & _ & _).
+  cbn [base64_encode_b].
+  rewrite (b64_char_good _ I1). change (0 =? 3) with false. cbv iota.
+  rewrite (b64_char_good _ I2). change (0 + 1 =? 3) with false. cbv iota.
+  rewrite (b64_char_good _ I3). change (0 + 1 + 1 =? 3) with false. cbv iota.
+  rewrite (b64_char_good _ I4). change (0 + 1 + 1 + 1 =? 3) with true. cbv iota.
+  destruct (b64_loop false (base64_encode_b r) 0 0) as [[o n] x].
+  f_equal. f_equal. f_equal; [|f_equal; [|f_equal]]; lia.
+Qed.
+
+Theorem base64_decode_encode : forall s, wf_bytes s -> base64_decode_b false (base64_encode_b s) = s.
+Proof.
+  assert (G : forall n s, (length s <= n)%nat -> wf_bytes s -> base64_decode_b false (base64_encode_b s) = s).
+  { induction n as [|n IH]; intros s L W.
+    - destruct s; [reflexivity|cbn in L; lia].
+    - destruct s as [|a [|b [|c r]]].
+      + reflexivity.
+      + inversion W as [|? ? Ha _]; subst. unfold wf_byte in Ha.
+        assert (I1 : a / 4 < 64) by lia. assert (I2 : (a mod 4) * 16 < 64) by lia.
+        unfold base64_decode_b. cbn [base64_encode_b].
+        rewrite (b64_char_good _ I1). change (0 =? 3) with false. cbv iota.
+        rewrite (b64_char_good _ I2). change (0 + 1 =? 3) with false. cbv iota.
+        cbn [b64_loop]. change (false && _) with false. cbv iota.
+        change ((61 =? 13) || (61 =? 10)) with false. cbv iota. change ((61 =? 61) || (61 =? 32)) with true. cbv iota.
+        change (0 + 1 + 1 =? 2) with true. cbv iota. cbn [app]. f_equal. lia.
+      + inversion W as [|? ? Ha W']; subst. inversion W' as [|? ? Hb _]; subst. unfold wf_byte in Ha, Hb.
+        assert (I1 : a / 4 < 64) by lia. assert (I2 : (a mod 4) * 16 + b / 16 < 64) by lia.
+        assert (I3 : (b mod 16) * 4 < 64) by lia.
+        unfold base64_decode_b. cbn [base64_encode_b].
+        rewrite (b64_char_good _ I1). change (0 =? 3) with false. cbv iota.
+        rewrite (b64_char_good _ I2). change (0 + 1 =? 3) with false. cbv iota.
+        rewrite (b64_char_good _ I3). change (0 + 1 + 1 =? 3) with false. cbv iota.
+        cbn [b64_loop]. change (false && _) with false. cbv iota.
+        change ((61 =? 13) || (61 =? 10)) with false. cbv iota. change ((61 =? 61) || (61 =? 32)) with true. cbv iota.
+        change (0 + 1 + 1 + 1 =? 2) with false. change (0 + 1 + 1 + 1 =? 3) with true. cbv iota. cbn [app].
+        f_equal; [|f_equal]; lia.
+      + inversion W as [|? ? Ha W1]; subst. inversion W1 as [|? ? Hb W2]; subst. inversion W2 as [|? ? Hc W3]; subst.
+        unfold wf_byte in Ha, Hb, Hc.
+        unfold base64_decode_b. rewrite (b64_loop_triple a b c r Ha Hb Hc).
+        assert (IHr : base64_decode_b false (base64_encode_b r) = r) by (apply IH; [cbn in L; lia|exact W3]).
+        unfold base64_decode_b in IHr. destruct (b64_loop false (base64_encode_b r) 0 0) as [[o n'] x].
+        cbn [app]. rewrite IHr. reflexivity. }
+  intros s W. apply (G (length s)); [lia|exact W].
+Qed.
+
+Theorem t_base64_roundtrip s : wf_bytes s -> t_out (t_base64_decode (t_out (t_base64_encode s))) = s.
+Proof. intro W. cbn [t_base64_decode t_base64_encode t_out ok_res]. apply base64_decode_encode. exact W. Qed.
